@@ -1403,6 +1403,33 @@ class Evaluator:
         m = re.search(r"(Result|Option)::<.*>::(map|and_then|map_err|inspect|inspect_err|ok_or_else|unwrap_or_else|or_else)$", c)
         if m and len(args) == 2:
             return self._combinator(frame, bi, m.group(1), m.group(2), args[0], args[1], site, entry)
+        m = re.search(r"(Result|Option)::<.*>::(is_some_and|is_ok_and|is_none_or)$", c)
+        if m and len(args) == 2:
+            # opt.is_some_and(f) = opt is Some && f(payload);  opt.is_none_or(f) = opt is None || f(payload)
+            recv = args[0]
+            mapped = self._combinator(frame, bi, m.group(1), "map", recv, args[1], site, entry)
+            good = "Ok" if m.group(1) == "Result" else "Some"
+            pv = None
+            if tag(mapped) == "variant":
+                pv = mapped[3][0] if mapped[2] == good else None
+                if pv is None:
+                    return const(0 if m.group(2) != "is_none_or" else 1)
+                return pv
+            if tag(mapped) == "vsum":
+                pv = dict(mapped[2]).get(good, (None,))[0]
+            if pv is not None:
+                if tag(recv) == "call" and recv[1].endswith("checked_sub"):
+                    some = ("cmp", "Le", recv[2][1], recv[2][0])
+                else:
+                    some = ("is", "is_ok" if m.group(1) == "Result" else "is_some", recv)
+                if m.group(2) == "is_none_or":
+                    return ("boolor", ("not", some), pv)
+                return ("booland", some, pv)
+            return ("call", c, tuple(args))
+        if re.search(r"(cmp::Ord(<.*>)?>?::cmp|cmp::Ord for \w+>::cmp)$", c) and len(args) == 2:
+            a_, b_ = self._deref_val(args[0]), self._deref_val(args[1])
+            if _numeric(a_) and _numeric(b_):
+                return ("ordcmp", a_, b_)
         m = re.search(r"(Result|Option)::<.*>::map_or$", c)
         if m and len(args) == 3:
             # opt.map_or(d, f) = f(payload) when Some / Ok, d otherwise
@@ -1804,6 +1831,21 @@ def implied_facts(guards):
                     facts.add(("cmp", "Lt", x[1], x[2]))
                 elif rel in (("eq", 0), ("ne", (1,))):
                     facts.add(("cmp", "Ge", x[1], x[2]))
+            if tag(x) == "ordcmp":
+                # a.cmp(&b): Less = -1 (255 as an unsigned switch value), Equal = 0, Greater = 1
+                a_, b_ = x[1], x[2]
+                LESS = (255, -1, 2**8 - 1, 2**64 - 1, 2**128 - 1)
+                def one(v):
+                    return "Lt" if v in LESS else ("Eq" if v == 0 else ("Gt" if v == 1 else None))
+                op = None
+                if rel[0] == "eq":
+                    op = one(rel[1])
+                elif rel[0] == "ne":
+                    left = {"Lt", "Eq", "Gt"} - set(one(v) for v in rel[1])
+                    op = {frozenset(["Lt"]): "Lt", frozenset(["Eq"]): "Eq", frozenset(["Gt"]): "Gt", frozenset(["Lt", "Eq"]): "Le", frozenset(["Gt", "Eq"]): "Ge",
+                          frozenset(["Lt", "Gt"]): "Ne"}.get(frozenset(left))
+                if op is not None:
+                    facts |= implied_facts([(("cmp", op, a_, b_), ("eq", 1))])
             if tag(x) == "filter" and rel in (("eq", 1), ("ne", (0,))):
                 # Some(..) came out of the filter: the receiver was Some and the predicate held
                 facts |= implied_facts([(("discr", x[1]), ("eq", 1)), (x[2], ("eq", 1))])
